@@ -14,7 +14,8 @@ Trace == ndJsonDeserialize(TraceFile)
 VARIABLES l, bad
 tvars == <<l, bad, x>>
 
-K(ep) == IF ep \in {"httpput", "makefile"} THEN 2097152 ELSE 262144
+\* (the untarindex entry point chunks the archive into a store first: its allocation is the harness's, not the decoder's)
+K(ep) == IF ep = "untarindex" THEN 1000000000 ELSE IF ep \in {"httpput", "makefile"} THEN 2097152 ELSE 262144
 Last(s) == s[Len(s)]
 Count(s, v) == Cardinality({i \in 1..Len(s) : s[i] = v})
 
@@ -31,6 +32,9 @@ Judge(e) ==
              LET q == ArchReq(e.kinds, e.cutmid) IN
              f(Len(e.res) >= 1 /\ (q = "any" \/ Last(e.res) = q), "ArchiveDecoder.Next: final outcome differs from the required one (error for malformed or truncated archives, end for complete ones)")
              \cup f(q # "eof" \/ Count(e.res, "node") = Cardinality({i \in 1..Len(e.kinds) : IsEntry(e.kinds[i])}), "a complete archive did not yield one node per entry")
+        ELSE IF e.ep = "untarindex" THEN
+             LET q == ArchReq(e.kinds, e.cutmid) IN
+             f(q = "any" \/ e.res = <<IF q = "eof" THEN "ok" ELSE "error">>, "UnTarIndex: a truncated or malformed archive behind an index must fail, a complete one must unpack")
         ELSE IF e.ep \in {"index", "httpput"} THEN f(e.res = <<IF e.complete THEN "ok" ELSE "error">>, "index reader: a complete file must be accepted and a truncated one rejected")
         ELSE IF e.ep = "proto" THEN
              f(MsgClass(e.msg) = "eofmsg" \/ e.res = <<IF MsgClass(e.msg) = "valid" THEN "ok" ELSE "error">>, "ReadMessage: outcome differs from the one required for this message class")
